@@ -254,7 +254,7 @@ func runCheck(id, tier string, seed int) int {
 	}
 
 	// build VCs (sequential: the SSA program is shared) and discharge in parallel
-	sem := make(chan struct{}, 16)
+	sem := make(chan struct{}, 20)
 	var wg sync.WaitGroup
 	for _, j := range jobs {
 		j.res = buildVC(P, C, j.fn, false)
@@ -301,6 +301,47 @@ func runCheck(id, tier string, seed int) int {
 		}(res)
 	}
 	wg.Wait()
+
+	// second chance: an obligation left undecided (no solver answered within the time limit while up to 16
+	// portfolios ran side by side) is tried again with three times the limit and little else running, so that
+	// machine load cannot turn a proof into an alarm. Refuted obligations (sat) are not retried. Capped: when
+	// many obligations are undecided the tree is broken anyway.
+	if tier == "quick" && os.Getenv("GOVC_NO_RETRY") == "" {
+		type redo struct {
+			x *Exec
+			o *Obligation
+		}
+		var again []redo
+		for _, j := range jobs {
+			if j.res == nil || j.res.exec == nil {
+				continue
+			}
+			for _, o := range j.sel {
+				if o.Kind != "cover" && o.Result != nil && o.Result.Status != "unsat" && o.Result.Status != "sat" && len(again) < 24 {
+					again = append(again, redo{j.res.exec, o})
+				}
+			}
+		}
+		sem2 := make(chan struct{}, 10)
+		var wg2 sync.WaitGroup
+		for _, r := range again {
+			wg2.Add(1)
+			go func(r redo) {
+				defer wg2.Done()
+				sub := &FuncResult{Key: r.o.Func, Obls: []*Obligation{r.o}, exec: r.x}
+				o2 := opts
+				o2.TimeoutS = 3 * timeout
+				first := r.o.Result
+				discharge(sub, o2, sem2)
+				if r.o.Result == nil {
+					r.o.Result = first
+				} else if r.o.Result.Status == "unsat" {
+					r.o.Result.Solver += "/retry"
+				}
+			}(r)
+		}
+		wg2.Wait()
+	}
 
 	// evaluate
 	type sample struct {
